@@ -141,6 +141,9 @@ RULESETS = [
     (["A", "B", "C"], {"k": None, "q": None},
      [("assignment", {"equation": "A = q + t"}, "dt"), ("assignment", {"equation": "B = A*volume"}, "repeated"),
       ("assignment", {"equation": "_q = B - 1"}, "start")]),
+    # frequency left to its default (None = declared as a 2-tuple): "repeated" for assignments, one Euler step per dt for ode rules
+    (["A", "B", "C"], {"k": None, "q": None},
+     [("additive", {"equation": "C = A + B"}, None), ("ode", {"equation": "k*C", "target": "A"}, None)]),
 ]
 
 
@@ -148,6 +151,8 @@ def _apply_oracle(rules, sp, pa, t, dt, rs, V):
     """independent evaluation of the rule set above, in declaration order"""
     sp, pa = dict(sp), dict(pa)
     for typ, d, freq in rules:
+        if freq is None:
+            freq = "dt" if typ == "ode" else "repeated"
         if freq in ("repeated", "repeat"):
             fires = True
         elif freq == "dt":
@@ -183,7 +188,7 @@ def interface_job(interp, c, case):
     species, params, rules = RULESETS[idx]
     pvals = {p: c.real("p_" + p) for p in params}
     svals = {s: c.real("s_" + s) for s in species}
-    rl = [(ty, dict(d), fr) for ty, d, fr in rules]
+    rl = [(ty, dict(d), fr) if fr is not None else (ty, dict(d)) for ty, d, fr in rules]
     if model_kind == "lineage":
         Lm = interp.load("bioscrape.lineage")
         M = Lm.ns["LineageModel"](species=list(species), parameters=list(pvals.items()), rules=rl,
